@@ -4,8 +4,9 @@ repository's 124 tests (checked when added); 'props' = checks expected to catch 
 MUTANTS = []
 
 
-def M(id, file, old, new, props, all=False):
-    MUTANTS.append({"id": id, "file": file, "old": old, "new": new, "props": props, "all": all})
+def M(id, file, old, new, props, all=False, more=()):
+    """more = further (old, new) replacements in the same file (for two-site mutants)."""
+    MUTANTS.append({"id": id, "file": file, "old": old, "new": new, "props": props, "all": all, "more": list(more)})
 
 
 # ---- partitions / geometry (C02, C16)
@@ -83,3 +84,42 @@ M("ackley-dim-check", "PyXAB/synthetic_obj/Ackley.py", "if len(x) != 2:\n       
 M("himmelblau-fmax-1", "PyXAB/synthetic_obj/Himmelblau.py", "self.fmax = 0", "self.fmax = 1e-6", ["C17"])
 M("difficult-nan-at-edge", "PyXAB/synthetic_obj/DifficultFunc.py", "        if y == 0:\n            return 0",
   "        if y == 0:\n            return 0\n        elif y < 1e-15:\n            return float('nan')", ["C17"])
+
+
+# ---- crediting (C04)
+M("hoo-credit-leaf-only", "PyXAB/algos/HOO.py", "        for node in path:\n            # Update", "        for node in path[-1:]:\n            # Update", ["C04", "C05"])
+M("hct-credit-whole-path", "PyXAB/algos/HCT.py",
+  "        node.update_reward(reward)\n        self.iteration += 1",
+  "        for node in path[-2:]:\n            node.update_reward(reward)\n        self.iteration += 1", ["C04"])
+M("hoo-double-credit-at-7", "PyXAB/algos/HOO.py",
+  "        self.visited_times += 1\n        self.rewards.append(reward)",
+  "        self.visited_times += 1\n        self.rewards.append(reward)\n        if self.visited_times == 7 and self.depth == 3:\n            self.rewards.append(reward)", ["C04"])
+M("stosoo-stale-index", "PyXAB/algos/StoSOO.py",
+  "                            self.max_b_node_ind = max_b_node_ind\n", "                            self.max_b_node_ind = max_b_node_ind if h < 3 else 0\n", ["C04"])
+M("zooming-mean-denominator", "PyXAB/algos/Zooming.py",
+  ") / (self.pulled_times[self.best_arm] + 1)", ") / (self.pulled_times[self.best_arm] + 1 + (self.pulled_times[self.best_arm] == 5))", ["C04", "C11"])
+M("poo-reward-to-first-learner", "PyXAB/algos/POO.py",
+  "            self.V_algo[self.algo_counter].receive_reward(time, reward)", "            self.V_algo[0].receive_reward(time, reward)", ["C04", "C10"])
+M("vroom-credit-drawn-only", "PyXAB/algos/VROOM.py",
+  "        for i in range(len(self.update_list)):\n            node = self.update_list[i]", "        for i in range(1):\n            node = self.update_list[i]", ["C04", "C13"])
+M("vhct-variance-floor", "PyXAB/algos/VHCT.py", "self.minvariance = 1e-3", "self.minvariance = 1e-4", ["C04"])
+M("sequool-stale-curr-node", "PyXAB/algos/SequOOL.py",
+  "                        self.curr_node = max_node.get_children()[-1]\n", "", ["C04"])
+M("gpo-validation-denominator", "PyXAB/algos/GPO.py",
+  ") / (self.counter - self.half_phase_length + 1)", ") / (self.counter - self.half_phase_length + 1 + (self.counter == self.half_phase_length + 2))", ["C04", "C09"])
+M("stroquool-double-count", "PyXAB/algos/StroquOOL.py",
+  "            self.curr_node.visited_times += 1\n", "            self.curr_node.visited_times += 1 + (self.curr_node.visited_times == 3)\n", ["C04"])
+M("revert-D7-gpo-rollover", "PyXAB/algos/GPO.py",
+  "            else:\n                point = self.goodx\n\n        return point",
+  "            else:\n                point = self.goodx\n\n            if self.counter >= 2 * self.half_phase_length:\n                self.phase += 1\n                self.counter = 0\n\n        return point",
+  ["C04", "C09"],
+  more=[("""        self.counter += 1
+        if self.counter >= 2 * self.half_phase_length:
+            # the phase is over: the next pull starts a new base learner
+            self.phase += 1
+            self.counter = 0
+            if self.phase > self.N:
+                maxind = np.argmax(np.array(self.V_reward))
+                self.goodx = self.V_x[maxind]
+""", """        self.counter += 1
+""")])
